@@ -90,6 +90,7 @@ type scenario struct {
 	Keys   []int
 	Vals   []int
 	Depth  [2]int // quick, thorough
+	Copy   bool   // the alphabet has "cp": SecureTrie.Copy() (the node's own snapshot operation of a trie object)
 }
 
 var scenarios = map[string]*scenario{}
@@ -224,6 +225,11 @@ type inst struct {
 	model map[string]string
 	tc    snap   // what "ro" reopens: last trie-level commit on the current TrieDatabase
 	dur   []snap // durable (trie + TrieDatabase committed) versions, oldest first, consecutive ones distinct
+	// a copy taken by "cp" (at most one at a time): it must keep the content it had when it was taken
+	cpS     *trie.SecureTrie
+	cpModel map[string]string
+	cpAt    int // number of events applied when the copy was taken
+	nEv     int
 }
 
 var (
@@ -400,6 +406,14 @@ func (in *inst) rpTarget() *snap {
 // oracle. It panics with errInvalidHistory if the event is not enabled.
 func (in *inst) apply(ev string) *failure {
 	f := strings.Fields(ev)
+	in.nEv++
+	if f[0] == "cp" {
+		if in.st == nil || !in.sc.Copy {
+			panic(errInvalidHistory)
+		}
+		in.cpS, in.cpModel, in.cpAt = in.st.Copy(), copyModel(in.model), in.nEv
+		return nil
+	}
 	argKey := func() []byte {
 		i, err := strconv.Atoi(f[1])
 		if err != nil || i < 0 {
@@ -504,6 +518,23 @@ func (in *inst) terminal() *failure {
 	}
 	if got, want := in.hash(), modelRoot(in.sc, in.model); got != want {
 		return failf("hash-differs/final", "Hash() = %x after reading every key, a fresh trie with the same content {%s} has %x", got, modelString(in.model), want)
+	}
+	if in.cpS != nil {
+		// the copy is a trie of its own: what was written to the original afterwards is not in it
+		for _, i := range in.sc.readSet() {
+			k := in.sc.key(i)
+			got, err := in.cpS.TryGet(k)
+			if err != nil {
+				return failf("error/copy-get", "TryGet(%x) on the copy returned %v", k, err)
+			}
+			want, present := in.cpModel[string(k)]
+			if (!present && len(got) != 0) || (present && string(got) != want) {
+				return failf("read-differs/copy", "the copy taken after event %d answers TryGet(%x) = %x, its content then was {%s}", in.cpAt, k, got, modelString(in.cpModel))
+			}
+		}
+		if got, want := in.cpS.Hash(), modelRoot(in.sc, in.cpModel); got != want {
+			return failf("hash-differs/copy", "the copy taken after event %d hashes to %x, a fresh trie with its content {%s} has %x", in.cpAt, got, modelString(in.cpModel), want)
+		}
 	}
 	return nil
 }
@@ -690,6 +721,11 @@ func (in *inst) stateKey() (string, shape) {
 	if t := in.rpTarget(); t != nil {
 		fmt.Fprintf(&sb, "|rp=%x{%s}", t.root[:6], modelString(t.model))
 	}
+	if in.cpS != nil {
+		// the copy shares nodes with the original in ways the dump above does not show: histories with
+		// copies taken at different moments are kept apart (finer than necessary, never hides anything)
+		fmt.Fprintf(&sb, "|cp@%d/%d{%s}", in.cpAt, in.nEv, modelString(in.cpModel))
+	}
 	return sb.String(), sh
 }
 
@@ -712,6 +748,9 @@ func (in *inst) enabled(sh shape) []string {
 		}
 	}
 	en = append(en, "h", "tc", "c", "ro", "rf")
+	if in.sc.Copy && in.st != nil && in.cpS == nil {
+		en = append(en, "cp")
+	}
 	if in.rpTarget() != nil {
 		en = append(en, "rp")
 	}
